@@ -37,8 +37,10 @@ MANIFEST = {
     "note": "PARTIAL: only the logic core is modelled and proved (generated integer check, realize_global_int, the "
             "size/offset/total/alignment comparisons). What gcc computes (offsetof/sizeof/constant values), calls through "
             "the generated wrappers/libffi and global variable access are parameters of the model and covered by the "
-            "correspondence run only. Bit-fields, anonymous nested structs, packed structs and non-x86-64 layouts are not "
-            "generated. Known finding C12/enumerator-value-unchecked: API mode never checks enumerator values given in "
+            "correspondence run only (incl. a stateful session per module: by-value struct results are fresh objects, kept "
+            "results are re-read after all calls). Packed structs (packed=True only: pack=N>1 is NotImplementedError in API "
+            "mode) are generated and modelled; bit-fields and anonymous nested structs are generated and checked against the "
+            "compiler only (not mutated, not in the Lean model); non-x86-64 layouts are not generated. Known finding C12/enumerator-value-unchecked: API mode never checks enumerator values given in "
             "the cdef (the compiler's value is used silently).",
     "technique": "Lean 4 proof (omega/induction over the field list, terms regenerated from _cffi_include.h and recompiler.py) "
                  "+ differential correspondence with compiled extension modules and compiler-computed facts",
@@ -210,6 +212,21 @@ def run_unit(ctx, rng, uid, oracle_only=False, kinds=None):
                 ctx.fail(dict(base_case, item=key, probe=pr, expect=want, observed=obs,
                               untouched=bool(d)),
                          "%s of %s in the %s module: got %r, the C compiler/C semantics say %r" % (pr["k"], key, vname, obs, want))
+        # --- stateful session: every returned object is kept and re-read after all calls (by-value struct results
+        #     are fresh objects, pointers alias what they should, primitives keep their value)
+        steps = G.make_session(rng, unit, nsteps=ctx.n(30, 60))
+        got, want = G.run_session(ffi, lib, unit, steps), G.expected_session(unit, steps)
+        for i, st in enumerate(steps):
+            ctx.case((vname, "session", st["op"], i), sample=None)
+            ctx.count("session:" + st["op"])
+        for part in ("immediate", "final", "alias"):
+            if got[part] != want[part]:
+                i = [j for j in range(len(steps)) if got[part][j] != want[part][j]][0]
+                ctx.fail(dict(base_case, item="session", probe="session", session=steps, part=part, step=i,
+                              observed=got[part][i], expect=want[part][i], vstruct=unit["vstruct"], funcs=unit["funcs"]),
+                         "stateful session in the %s module: %s of the object kept by step %d (%r) is %r, C semantics say %r"
+                         % (vname, part, i, st, got[part][i], want[part][i]))
+                break
         if oracle_only:
             continue
         # --- the Lean model on the same structs and constants
@@ -288,6 +305,12 @@ def replay(ctx, obj):
     case = G.unjson(obj["case"])
     m = _rebuild(ctx, case, "_c12_replay")
     pr = case["probe"]
+    if pr == "session":
+        unit = {"vstruct": case["vstruct"], "funcs": case["funcs"]}
+        got, want = G.run_session(m.ffi, m.lib, unit, case["session"]), G.expected_session(unit, case["session"])
+        i, part = case["step"], case["part"]
+        print("step %d %r, %s: observed %r, expected %r" % (i, case["session"][i], part, got[part][i], want[part][i]))
+        return 0 if got == want else 1
     if pr == "sizeof-again":
         text = case["cdef"] if isinstance(case["cdef"], str) else "".join(c[0] for c in case["cdef"])
         tag = [l for l in text.split("\n") if case["item"].split(":")[1] + " {" in l][0].split("{")[0].strip()
